@@ -16,7 +16,7 @@ RULE = ("scenario = one Buffer with request/response memory thresholds and maxim
         "non-trivial = a request or response crossed a threshold or a maximum")
 ASSUMPTIONS = ["over-limit request bodies stay below 256 KB in the generator so that net/http drains them and the client reliably reads the 413",
                "the request spill file is unlinked by multibuf.New right after creation (modelled as created+removed); only directory entries are counted, not descriptors",
-               "handler does not panic; a panicking handler still runs the deferred closes (Go semantics), not exercised"]
+               "a panicking handler (http.ErrAbortHandler) is modelled and exercised: only the deferred closes run, the ledger theorem covers it, tmp files are counted after net/http has recovered"]
 TRUSTED = ["multibuf.writerOnce (init/mem/file/calledRead, initFile, Reader, Close) modelled, validated by correspondence, not verified"]
 
 
